@@ -23,9 +23,10 @@ EXPLANATION = (
     "history record carries combination, the sort_by value, viability and message); R-measure-formula (the "
     "association stored with each combination is the documented formula, with n the total of the very table "
     "that was grouped); optional `feature` arguments are tested with `is None` (0 and '' are column labels)."
+    " Also a stale-cache instance of R-single-table (a table read by summary()/history() that fit() computes must be recomputed by update_discretizer) and R-forward-sentinels (summary() hides str_default / str_nan by name: every inner discretizer must have been given the same ones)."
 )
 NOT_DECIDED = "agreement of summary contents with transform outputs on data"
-FLOORS = {"R-summary-scope": 7, "R-measure-formula": 4, "R-single-table": 4, "R-history-complete": 6, "R-history-fields": 2, "R-readonly-queries": 30}
+FLOORS = {"R-summary-scope": 7, "R-measure-formula": 4, "R-single-table": 6, "R-forward-sentinels": 8, "R-history-complete": 6, "R-history-fields": 2, "R-readonly-queries": 30}
 
 
 def _emits(node, sink="summaries"):
@@ -252,9 +253,48 @@ def rule_viable_is_fitted(ctx):
     ctx.ob(R, construct(fc, "values_orders are updated with exactly that order"), ok, loc(fc))
 
 
+def _self_attrs(fn_node, store: bool):
+    out = {}
+    for n in walk_no_nested(fn_node):
+        if isinstance(n, ast.Attribute) and isinstance(n.value, ast.Name) and n.value.id == "self":
+            if store and isinstance(n.ctx, ast.Store):
+                out.setdefault(n.attr, n)
+            elif not store and isinstance(n.ctx, ast.Load):
+                out.setdefault(n.attr, n)
+    return out
+
+
+def rule_no_stale_cache(ctx):
+    """summary() / history() describe the *current* fitted state: a table they read that fit() computes
+    (re-binds) from the orders must be recomputed by update_discretizer too, otherwise a manual edit
+    leaves the description behind the object (labels_per_values is: R-labels-refreshed)."""
+    R = "R-single-table"
+    repo = ctx.repo
+    fit = repo.find_function(f"{F_BASE}::BaseDiscretizer.fit")
+    upd = repo.find_function(f"{F_BASE}::BaseDiscretizer.update_discretizer")
+    computed = {}
+    for n in walk_no_nested(fit.node):
+        if isinstance(n, (ast.Assign, ast.AnnAssign)):
+            tgts = n.targets if isinstance(n, ast.Assign) else [n.target]
+            for t in tgts:
+                if isinstance(t, ast.Attribute) and isinstance(t.value, ast.Name) and t.value.id == "self" and n.value is not None and not isinstance(n.value, ast.Constant):
+                    computed.setdefault(t.attr, n)
+    refreshed = set(_self_attrs(upd.node, store=True))
+    for q in ("summary", "history"):
+        fq = repo.find_function(f"{F_BASE}::BaseDiscretizer.{q}")
+        reads = _self_attrs(fq.node, store=False)
+        stale = sorted(a for a in reads if a in computed and a not in refreshed)
+        ctx.ob(R, construct(fq, f"{q}() reads no table computed at fit that update_discretizer leaves as it was"), not stale, loc(fq, reads[stale[0]] if stale else None),
+               "" if not stale else f"self.{stale[0]} is computed in fit ({loc(fit, computed[stale[0]])}) and never recomputed by update_discretizer: after a manual edit {q}() describes the object as it was before the edit")
+
+
 def check(ctx):
     from . import c07
 
+    rule_no_stale_cache(ctx)
+    from . import quant
+
+    quant.check_forward_sentinels(ctx, "R-forward-sentinels")  # summary() hides str_default / str_nan by name: the inner discretizers must have used the same ones
     c07.rule_readonly_queries(ctx)
     rule_viable_is_fitted(ctx)
     rule_summary_scope(ctx)
